@@ -153,6 +153,7 @@ def specs(tier):
     s2['after_failed_create'] = True
     out.append(s2)
     out += FAM.magnitude_specs()
+    out += [s_ for s_ in FAM.short_name_specs() if not s_.get('rules')]
     out += FAM.big_specs(tier, delays_ok=False, rules_ok=False, hill_ok=False)    # (the Hill laws are known findings, keyed by family)
     return out
 
